@@ -52,7 +52,7 @@ Ltac machine p :=
     [exec alu read_op write_op bind next with_regs with_flags with_mem with_frame with_pc
      getr setr st_regs st_flags st_mem st_frame st_pc
      rAX rBX rCX rDX rSI rDI rR8 rR9 rR10 rR11 rR12 rR13 rR14
-     find_label Nat.eqb ea option_map p].
+     find_label Nat.eqb ea option_map JL JGE JLE JG JEQ JNE JCC p].
 
 (* one instruction; the goal must be  steps (S k) E p <explicit state> = _  *)
 Ltac step p :=
